@@ -166,7 +166,10 @@ ItemBad(P, it) ==
        \/ (it.ty = "row" /\ RowBad(it))
 Rejected(P) == \E n \in 1..Len(P): ItemBad(P, P[n])
 
-TriggerSet(from) == <<SeqSetOf(SubSeq(from, 1, Len(from) - 1)), from[Len(from)]>>
+\* "the same trigger set": the same final key and the same modifiers regardless of order - as a MULTISET, like the code
+\* (a modifier written twice is not the same trigger as the modifier written once; such a mapping is rejected anyway)
+ModBag(ms) == [k \in SeqSetOf(ms) |-> Cardinality({i \in 1..Len(ms): ms[i] = k})]
+TriggerSet(from) == <<ModBag(SubSeq(from, 1, Len(from) - 1)), from[Len(from)]>>
 
 \* repeat-only pass: in source order; entries whose trigger set exists set the repeat, others append an identity mapping
 RECURSIVE RepeatPass(_, _, _, _)
